@@ -237,6 +237,7 @@ func classTransportND(s string, outs []string) string {
 func newTransportH() *H[headers.Transport] {
 	return &H[headers.Transport]{
 		name: "transport", kindU: 10, kindM: 11, orderDep: true,
+		variants: transportVariantGrammar.gen,
 		unmarshal: func(s string) (headers.Transport, error) {
 			var t headers.Transport
 			err := t.Unmarshal(base.HeaderValue{s})
@@ -270,6 +271,7 @@ func encTransports(l *hx.L, ts headers.Transports) {
 func newTransportsH() *H[headers.Transports] {
 	return &H[headers.Transports]{
 		name: "transports", kindU: 12, kindM: 13, orderDep: true,
+		variants: transportsVariantGrammar.gen,
 		unmarshal: func(s string) (headers.Transports, error) {
 			var t headers.Transports
 			err := t.Unmarshal(base.HeaderValue{s})
